@@ -4,6 +4,35 @@ _NOTE = ("Trusted base: CPython 3.12 ast parser, the rule slot tables (confirmed
          "CFG/dominator code. Decides only the named structural clauses (necessary conditions); the runtime behaviour as a whole is not decided.")
 
 CLAIMED = {
+    "C31": {
+        "text": "Decided on every run: a Toll's occupancy is zeroed for every tensor on the returning path and zero-occupancy buffets are skipped before size lookups; "
+                "count_writes=False makes write_scale 0, which factor analysis shows in every term of every write-action increment; latency and the action list agree; "
+                "direction flags are derived from direction != down/up and every action increment is control-dependent on the flag of the movement that feeds it (peer "
+                "exchange exempt under a who-may-write obligation); template generation intersects keep sets with Above and the model rejects a Toll as first holder.",
+        "design_ref": "DESIGN.md section 3, C31", "note": _NOTE,
+        "technique": "static analysis: control-dependence + factor analysis on polynomial normal forms + who-may-write census (ast/CFG)",
+    },
+    "C05": {
+        "text": "Structural clauses decided on every run: BuffetStats field schema vs the reflective combinators, ComputeStats field coverage, the prefix->operator and "
+                "skip-set tables of the combinators, net-of-skipped accessor discipline at every raw counter read outside the analysis, values-per-action precedence chain, "
+                "exhaustive node-type dispatch paired with its own analysis functions, energy/leak/latency/total formula shapes in normal form, and values->actions scales. "
+                "The loop-nest execution semantics behind the counts is a value property and is not decided.",
+        "design_ref": "DESIGN.md section 3, C05", "note": _NOTE,
+        "technique": "static analysis: schema/table agreement, who-may-read discipline, guard-sequence extraction, polynomial normal forms (ast)",
+    },
+    "C30": {
+        "text": "Decided on every run: registry exhaustive over the TopologySpec enum with signature-compatible overrides; relevancy dispatch exhaustive and coherent between the "
+                "two sibling models with all result fields assigned on every returning path; closed forms of multicast/unicast cost, mesh and all-to-all totals, max hops and "
+                "max link traffic compared in canonical polynomial form (helpers inlined) with the forms route enumeration gives for a non-distributed source.",
+        "design_ref": "DESIGN.md section 3, C30", "note": _NOTE,
+        "technique": "static analysis: registry/enum exhaustiveness, path rule (definite assignment), polynomial normal-form comparison (ast/CFG)",
+    },
+    "C28": {
+        "text": "Decided on every run: the reduction operator of every accumulation in Mappings.energy/actions/latency/resource_usage (sum vs max per axis, guarded by the "
+                "per_* flags, component axis before Einsum axis) and the presence of both column families (tensor-keyed incl. None for compute; per-component leak) in energy().",
+        "design_ref": "DESIGN.md section 3, C28", "note": _NOTE,
+        "technique": "static analysis: accumulation-statement classification against an operator table, control-dependence on flags (ast/CFG)",
+    },
     "C21": {
         "text": "Decided on every run: progress-or-raise of the topological loop (no path back to the loop head without shrinking the work list, no exit with unsorted "
                 "fields, no-candidate => EvaluationError), whole-word escaped dependency edges in the right direction, evaluation in the computed order with "
